@@ -760,7 +760,7 @@ TREE_KINDS = ["nodes", "face centers", "edge centers"]
 CACHE_OPS = ([("tree", f"{t}:{k}") for t in ("ball", "kd") for k in TREE_KINDS]
              + [("subset", f"{q}:{k}") for q in ("nn", "circle") for k in TREE_KINDS]
              + [("geo", "gdf"), ("geo", "poly"), ("geo", "line"), ("remap", "")])
-CACHE_KEY = dict(ball=5, kd=6, gdf=1, line=2, poly=3)
+CACHE_KEY = dict(ball=5, kd=6, gdf=7, line=2, poly=3)
 CACHE_ATTR = dict(ball="_ball_tree", kd="_kd_tree")
 
 
@@ -1044,6 +1044,28 @@ def scenario_build(ctx, m, spec, history=None, tag="gen"):
             return
         ctx.hit("second-build-agrees")
         H1 = H1b
+    # the caller goes on editing HIS dataset (new variable, attribute, deletion): the grid reports what it reported
+    import xarray as xr
+
+    for n, o in named:
+        if isinstance(o, xr.Dataset) and history is None:
+            before_edit = pub_obs(g)
+            try:
+                o.attrs["c19_caller_edit"] = 1
+                o["c19_caller_var"] = xr.DataArray(np.arange(2.0), dims=["c19_dim"])
+                first = [k for k in o.data_vars if k != "c19_caller_var"][0]
+                o[first].attrs["c19_caller_edit"] = 1
+                del o[first]
+            except Exception as e:
+                ctx.hit(f"caller-edit-raises:{type(e).__name__}")
+            od = obs_diff(before_edit, pub_obs(g))
+            if od:
+                sig = f"C19/build/{name}/input-dataset-adopted" if spec["ctor"] == "adopt" else f"C19/build/{name}/grid-follows-input-edit"
+                ctx.fail(sig, f"{name}: after the caller adds / deletes variables and attributes in the dataset the grid was built from, the grid reports something else for {od}",
+                         inp, dict(observation_differs=od), dict(repaired_model=pred["readonly"]), ["construct_readonly"])
+                return
+            ctx.hit("caller-edit-of-input-not-seen-by-grid")
+            H1 = G.snapshot()
     # later use of the grid (lazy derivation, setters, normalisation) must not reach the inputs either
     H = H1
     obs_inputs = [deep_snap(o) for _, o in named]
